@@ -1881,6 +1881,14 @@ class AND(LogicalOperator):
     """
     seen_left_values: SeenSet = field(default_factory=SeenSet, init=False)
 
+    @lru_cache(maxsize=None)
+    def _required_variables_from_child_(self, child: Optional[SymbolicExpression] = None, when_true: bool = True):
+        if (child is None or child is self.left) and when_true:
+            # a true left side does not make the conjunction true: it can still turn false on its right side, what the
+            # nodes above need in that case (the variables of an alternative's conclusion) is required too.
+            when_true = None
+        return super()._required_variables_from_child_(child, when_true)
+
     def _evaluate__(self, sources: Optional[Dict[int, HashedValue]] = None, yield_when_false: bool = False) -> Iterable[Dict[int, HashedValue]]:
         # init an empty source if none is provided
         sources = sources or {}
